@@ -386,14 +386,14 @@ def run(chk):
     quick = chk.tier == 'quick'
     P = (chk.prop, chk.tier)
     cases = []
-    for M in ((1, 2, 3) if quick else (1, 2, 3, 4, 5, 6)):
+    for M in ((1, 2, 3) if quick else (1, 2, 3, 4, 5, 6, 7)):
         cases.append(P + ('alloc', M))
         cases.append(P + ('free', M))
     for pages in ((0, 1, 3) if quick else (0, 1, 2, 3, 4, 6, 8, 11)):
         cases.append(P + ('core', pages))
     for M in ((1, 3) if quick else (1, 2, 3, 4)):
         cases.append(P + ('callback', M))
-    chk.bounds = {'inductive step': 'one alloc / free / b_callback+dealloc from every state of a chunk of M <= %d blocks (symbolic free list and live set)' % (3 if quick else 6),
+    chk.bounds = {'inductive step': 'one alloc / free / b_callback+dealloc from every state of a chunk of M <= %d blocks (symbolic free list and live set)' % (3 if quick else 7),
                   'more_core': 'allocate_num_pages before in %s, page size in {4096, 16384, 65536, unknown}, mmap succeeds or fails' % ('{0,1,3}' if quick else '{0,1,2,3,4,6,8,11}')}
     chk.outside = ['libffi\'s trampoline code and ffi_prep_closure itself (contract stub: binds fun/user_data of the given closure)',
                    'more than one chunk in the symbolic state (chunks are only linked through the same list: the step does not depend on which chunk a block is in)',
